@@ -446,7 +446,7 @@ def c17(pid, tier, replay):
             sys_["auto"] = n % 3 != 0
             for lc in ("up", "never"):
                 vecs.append({"kind": "obs", "id": "c17-%05d-%s" % (n, lc), "toml": toml, "doc": d, "sys": sys_, "lifecycle": lc,
-                             "fwderr": (n % 17 == 5)})
+                             "fwderr": (n % 17 == 5), "autoerr": (n % 19 == 7)})
         # the minimal default configuration of `corerad -init`, before any interface is up (D11)
         minimal = C.document([C.table(name="eth0", prefixes=[C.prefix()]), C.table(name="eth1", monitor=True, advertise=False)],
                              debug_addr="127.0.0.1:9430", prometheus=True)
